@@ -75,10 +75,27 @@ def coq_makefile():
             raise RuntimeError("coq_makefile failed:\n" + out)
 
 
+class build_lock:
+    """Serialises Coq builds and driver extraction between concurrently running checks."""
+    def __init__(self, name):
+        os.makedirs(BUILD, exist_ok=True)
+        self.path = os.path.join(COQ if name == "coq" else BUILD, ".%s.lock" % name)
+
+    def __enter__(self):
+        import fcntl
+        self.f = open(self.path, "w")
+        fcntl.flock(self.f, fcntl.LOCK_EX)
+        return self
+
+    def __exit__(self, *a):
+        self.f.close()
+
+
 def coq_make(targets, timeout=1800, keep_going=False):
-    coq_makefile()
-    cmd = ["make", "-j%d" % NPROC] + (["-k"] if keep_going else []) + list(targets)
-    return sh(cmd, timeout=timeout, cwd=COQ)
+    with build_lock("coq"):
+        coq_makefile()
+        cmd = ["make", "-j%d" % NPROC] + (["-k"] if keep_going else []) + list(targets)
+        return sh(cmd, timeout=timeout, cwd=COQ)
 
 
 def forbidden_scan():
@@ -208,10 +225,18 @@ def extract_fragments():
 
 
 def build_ml_driver():
+    with build_lock("ml"):
+        return _build_ml_driver()
+
+
+def _build_ml_driver():
     """Extract the models (one Separate Extraction, ExtrOcamlBasic only) and build
     build/kdv_driver from ml/util.ml + ml/eng_*.ml.  Returns (ok, log)."""
-    gen = os.path.join(BUILD, "ml")
-    exe = os.path.join(BUILD, "kdv_driver")
+    only = os.environ.get("VERIF_ENGINES")
+    # a driver restricted to some engines (development) never replaces the full one
+    tag = "" if not only else "-" + hashlib.sha256(only.encode()).hexdigest()[:8]
+    gen = os.path.join(BUILD, "ml" + tag)
+    exe = os.path.join(BUILD, "kdv_driver" + tag)
     mods, names = extract_fragments()
     base = [m.split(".")[-1] for m in mods]
     dups = sorted({b for b in base if base.count(b) > 1})
@@ -224,7 +249,7 @@ def build_ml_driver():
         engs = [e for e in engs if os.path.basename(e)[4:-3] in only.split(",")]
     srcs = [os.path.join(COQ, "theories", m.replace(".", "/") + ".v") for m in mods] + engs + \
         [os.path.join(VERIF, "ml", "util.ml")] + glob.glob(os.path.join(COQ, "extract.d", "*.txt"))
-    stamp = os.path.join(BUILD, "kdv_driver.stamp")
+    stamp = exe + ".stamp"
     sig = hashlib.sha256(repr((only, [(p, os.path.getmtime(p)) for p in srcs])).encode()).hexdigest()
     if os.path.exists(exe) and os.path.exists(stamp) and open(stamp).read() == sig:
         # also require the model .vo files to be current
@@ -258,18 +283,20 @@ def build_ml_driver():
                 "  Stdlib.List.iter (fun l ->\n    let r = try f l with e -> \"EXC \" ^ Printexc.to_string e in\n"
                 "    print_string r; print_newline ()) (Util.read_lines path)\n"
                 % "".join("  %s.engines;\n" % os.path.basename(e)[:-3].capitalize() for e in engs))
-    rc, out = sh(["sh", "-c", "ocamlfind ocamlopt -O3 -w -a -o ../kdv_driver.tmp "
-                  "$(ocamlfind ocamldep -sort *.ml *.mli) 2>&1"], cwd=gen, timeout=900)
+    rc, out = sh(["sh", "-c", "ocamlfind ocamlopt -O3 -w -a -o ../kdv_driver.tmp%s "
+                  "$(ocamlfind ocamldep -sort *.ml *.mli) 2>&1" % tag], cwd=gen, timeout=900)
     if rc != 0:
         return False, out[-3000:]
-    os.replace(os.path.join(BUILD, "kdv_driver.tmp"), exe)
+    os.replace(os.path.join(BUILD, "kdv_driver.tmp" + tag), exe)
     with open(stamp, "w") as f:
         f.write(sig)
     return True, out
 
 
 def run_model(engine, casefile, timeout=1800):
-    rc, out = sh([os.path.join(BUILD, "kdv_driver"), engine, casefile], timeout=timeout)
+    only = os.environ.get("VERIF_ENGINES")
+    tag = "" if not only else "-" + hashlib.sha256(only.encode()).hexdigest()[:8]
+    rc, out = sh([os.path.join(BUILD, "kdv_driver" + tag), engine, casefile], timeout=timeout)
     if rc != 0:
         raise RuntimeError("model driver failed (%s):\n%s" % (rc, out[-2000:]))
     return out.split("\n")[:-1]
